@@ -1,0 +1,13 @@
+//go:build verif
+// +build verif
+
+package spg
+
+import "sort"
+
+// verifCanon puts the alphabet in a canonical (sorted) order so that, under
+// verification, a generated password is a function of the random stream.
+func verifCanon(chars charList) charList {
+	sort.Strings(chars)
+	return chars
+}
